@@ -57,7 +57,7 @@ def specs(draw, tier):
             elif kind == "face":
                 x = geom.origin[a] + draw(st.integers(0, geom.shape[a])) * geom.dx[a]
             elif kind == "out" and geom.periodic[a]:
-                x = geom.origin[a] + draw(st.floats(-1, 2, **finite)) * geom.L[a]
+                x = geom.origin[a] + draw(st.sampled_from([st.floats(-1, 2, **finite), st.floats(-4, 5, **finite)]).flatmap(lambda z: z)) * geom.L[a]
             else:
                 x = geom.origin[a] + draw(st.floats(0, 1, **finite)) * geom.L[a]
             if spec["dyadic"] and kind not in ("cell-centre", "face"):
@@ -102,7 +102,8 @@ def specs(draw, tier):
     others = []
     if fam == "cart" and draw(st.booleans()):
         for _ in range(draw(st.integers(1, 4))):
-            p = [float(geom.origin[a] + draw(st.floats(-0.5, 1.5, **finite)) * geom.L[a]) for a in range(dim)]
+            far = draw(st.integers(0, 3)) == 0  # members several periods away from the box (periodic axes only)
+            p = [float(geom.origin[a] + draw(st.floats(-3.5, 4.5, **finite) if far and geom.periodic[a] else st.floats(-0.5, 1.5, **finite)) * geom.L[a]) for a in range(dim)]
             others.append({"position": [gen.r6(x) for x in p], "radius": gen.r6(size * draw(st.floats(0.05, 0.4, **finite))), "interface_width": draw(st.sampled_from([None, 0.0, gen.r6(size * 0.03)]))})
     spec["others"] = others
     spec["perm_seed"] = draw(st.integers(0, 1000))
